@@ -361,7 +361,7 @@ class Send(Contract):
     returns = "Val"
     raises = True
     modifies = ProcessingLoop.modifies
-    properties = ["C13"]
+    properties = ["C13", "C14"]
 
     def pre(self, s, a):
         f = dict(wf_world(s))
@@ -384,6 +384,12 @@ class Send(Contract):
                 s.sel("Event.id", ev) == a.event.e, s.sel("Event._sm", ev) == W.SM,
                 s.sel("TriggerData.args", td) == a.args.e),
             "C07|reserved-names-stripped": kwargs_filtered(s0, s, a.kwargs.e, td),
+            # what the event's own call returns is what send returns (C14: results reach the caller)
+            "C13,C14|nested:returns-None-without-starting-anything": z3.Implies(z3.And(rtc(s0), locked(s0)), z3.And(
+                ref_of(r) == NONE, qt(s) == t0 + 1, s.g("ntrig") == s0.g("ntrig"))),
+            "C13,C14|nonrtc:returns-the-result-of-this-events-own-processing": z3.Implies(z3.Not(rtc(s0)), z3.And(
+                z3.Select(s.g("trig_log"), s0.g("ntrig")) == td, z3.Select(s.g("trig_res"), s0.g("ntrig")) == ref_of(r))),
+            "C13,C14|outer:never-the-private-sentinel": z3.Implies(z3.And(rtc(s0), z3.Not(locked(s0))), ref_of(r) != W.SENT),
         }
 
     def exc_post(self, s0, s, a, x):
